@@ -74,6 +74,8 @@ def alphabet(kind):
         ("record(v)@branch(0).comp(1)", lambda m: cellv(m).branch(0).comp(1).record("v", verbose=False)),
         ("record(v)@all", lambda m: m.record("v", verbose=False)),
         ("delete_recordings", lambda m: m.delete_recordings()),
+        ("record(v)@branch(2)", lambda m: cellv(m).branch(2).record("v", verbose=False)),
+        ("delete_recordings@branch(2)", lambda m: cellv(m).branch(2).delete_recordings()),
         ("stimulate@branch(2).comp(0)", lambda m: cellv(m).branch(2).comp(0).stimulate(jnp.ones(3) * 0.1, verbose=False)),
         ("stimulate@branch(0)", lambda m: cellv(m).branch(0).stimulate(jnp.ones(3) * 0.2, verbose=False)),
         ("stimulate@branch(1)", lambda m: cellv(m).branch(1).stimulate(jnp.ones(3) * 0.3, verbose=False)),
@@ -254,6 +256,9 @@ def _history(kind, tier, chunk, nchunks, is_canary):
               ("insert(CaT)@branch(2)", "insert(CaL)@branch(2).comp(0)", "delete_channel(CaL)@branch(2).comp(0)"), ("insert(K)@branch(2).comp(1)", "insert(Na)@all", "delete_channel(Na)@branch(0)"),
               ("insert(K)@branch(0)", "insert(Na)@all", "delete_channel(K)@branch(0)", "delete_channel(Na)@all"),
               ("stimulate@branch(2).comp(0)", "stimulate@branch(1)", "stimulate@branch(0)", "delete_stimuli@branch(0)"),
+              ("record(v)@branch(0).comp(1)", "record(v)@branch(2)", "record(v)@branch(0).comp(1)", "delete_recordings@branch(2)"),
+              ("record(v)@branch(2)", "record(v)@branch(0).comp(1)", "delete_recordings@branch(2)", "record(v)@all"),
+              ("record(v)@all", "record(v)@branch(0).comp(1)", "delete_recordings@branch(2)"),
               ("add_to_group(g)@branch(2)", "set_ncomp(3)@branch(1)") if kind == "cell" else ("add_to_group(g)@branch(2)",),
               ("add_to_group(g)@branch(2)", "set_ncomp(1)@branch(2)", "set_ncomp(3)@branch(1)") if kind == "cell" else ("add_to_group(g)@branch(2)",),
               ("stimulate@branch(1)", "stimulate@branch(0)", "stimulate@branch(2).comp(0)", "delete_stimuli@branch(0)", "record(v)@all")]
@@ -268,6 +273,8 @@ def _history(kind, tier, chunk, nchunks, is_canary):
             for op in h:
                 pre = snapshot(m) if op in UNDO else None
                 pairs0 = _ext_pairs(m) if op.startswith("delete_stimuli") or op.startswith("delete_clamps") else None
+                recs0 = sorted((int(r["rec_index"]), str(r["state"])) for _, r in m.recordings.iterrows()) if op == "delete_recordings@branch(2)" else None
+                rows_b2 = set(int(i) for i in m.nodes.index[(m.nodes["global_branch_index"] == 2)]) if recs0 is not None else None
                 try:
                     fn[op](m)
                 except Exception as e:
@@ -297,6 +304,12 @@ def _history(kind, tier, chunk, nchunks, is_canary):
                         want = {p for p in pairs0 if p[0] == "i"}
                     if _ext_pairs(m) != want:
                         w = [f"{op}: surviving (key, row, waveform) pairs {sorted(_ext_pairs(m))[:3]} != {sorted(want)[:3]}"]
+                if recs0 is not None and not w:
+                    # deleting recordings through a view removes exactly the recordings on the view's rows, every other one survives
+                    want_r = sorted(p for p in recs0 if not (p[0] in rows_b2 and p[1] in m.nodes.columns))
+                    got_r = sorted((int(r["rec_index"]), str(r["state"])) for _, r in m.recordings.iterrows())
+                    if got_r != want_r:
+                        w = [f"{op}: surviving recordings {got_r} != {want_r}"]
                 out["evals"] += 1
                 if w:
                     shared = _is_f10(trail, w)
@@ -516,7 +529,7 @@ def main(tier):
         ref = oc[0] == "ok" and not oc[1]["error"] and any(r["status"] != "proved" for r in oc[1]["results"])
         ck.canary(f"{can[0]}: {can[2][:50]!r} -> {can[3][:50]!r}", ref, oc)
     ck.bounded = {"evaluations": evals, "distinct_nontrivial": cases, "exhaustive": tier != "quick", "refused_operations": refused, "states_simulated_symbolically": len(states),
-                  "rule": "alphabet of 33 (cell) / 35 (network) view x operation letters (insert/delete_channel of HH, Na, K, Km, CaT, CaL on various views; set; add_to_group; record; delete_recordings; stimulate; clamp; delete_stimuli (view and module); delete_clamps; "
+                  "rule": "alphabet of 35 (cell) / 37 (network) view x operation letters (insert/delete_channel of HH, Na, K, Km, CaT, CaL on various views; set; add_to_group; record; delete_recordings; stimulate; clamp; delete_stimuli (view and module); delete_clamps; "
                           "make_trainable; delete_trainables; init_states; set_ncomp (cell) / connect and set on a synapse view (network)) on an irregular cell (ncomp [2,1,3]) and a 2-cell network with 2 synapse types; all histories of depth 1 and 2, depth 3 with stride 37 (quick) / all (thorough); "
                           "wf evaluated after every accepted operation (evaluations); a case = a distinct fully accepted history"}
     for f in ("jaxley.modules.base.Module.insert", "jaxley.modules.base.Module.delete_channel", "jaxley.modules.base.Module.set", "jaxley.modules.base.Module.set_ncomp", "jaxley.modules.base.Module.add_to_group",
